@@ -1048,6 +1048,56 @@ class ProgGen(object):
                 self.funs.append(f)
                 self.items.append(("f", f))
 
+    def redundancy_drivers(self):
+        """(emphasis "cse") functions in which a pure expression is computed on a path that may not run (the body of a loop with
+        a filter, a loop over a possibly empty list, a branch) and again after the join, called with arguments for which the
+        first computation runs and with arguments for which it does not; half of them cannot be inlined (a never-taken
+        self call)."""
+        r = self.r
+        for k in range(3):
+            name = self.fresh("f")
+            p_, q_, l_ = self.fresh("p"), self.fresh("p"), self.fresh("p")
+            t_, u_, x_ = self.fresh("v"), self.fresh("v"), self.fresh("e")
+            sc = Scope()
+            sc.vars[p_] = (SI, False)
+            sc.vars[q_] = (SI, False)
+            save = (self.pure_mode, self.own, self.in_fun, self.funs, self.feat)
+            self.pure_mode, self.own, self.in_fun, self.funs = True, set(), self.in_fun + 1, []
+            self.feat = self.feat - {"exit"}
+            E = prim("si." + r.choice(["add", "mul", "sub"]), self.expr(SI, sc, 2), prim("si.mul", var(p_), var(q_)))
+            self.pure_mode, self.own, self.in_fun, self.funs, self.feat = save
+            import copy as _copy
+            use1 = {"e": "asg", "x": t_, "v": prim("si.add", var(t_), _copy.deepcopy(E))}
+            kind = r.choice(["filter", "emptylist", "branch", "while"])
+            if kind == "filter":
+                first = {"e": "forin", "x": x_, "src": var(l_), "et": SI, "filt": prim("si.gt", var(x_), var(p_)),
+                         "body": {"e": "seq", "t": UNIT, "es": [use1]}}
+            elif kind == "emptylist":
+                first = {"e": "forin", "x": x_, "src": var(l_), "et": SI, "body": {"e": "seq", "t": UNIT, "es": [use1]}}
+            elif kind == "branch":
+                first = {"e": "if", "c": prim("si.gt", var(q_), var(p_)), "a": {"e": "seq", "t": UNIT, "es": [use1]}, "b": {"e": "unit"}, "t": UNIT}
+            else:
+                first = {"e": "seq", "t": UNIT, "es": [
+                    {"e": "asg", "x": u_, "v": lit(SI, 0)},
+                    {"e": "while", "c": prim("si.lt", var(u_), var(q_)),
+                     "body": {"e": "seq", "t": UNIT, "es": [{"e": "asg", "x": u_, "v": prim("si.add", var(u_), lit(SI, 1))}, use1]}}]}
+            tail = prim("si.add", prim("si.mul", var(t_), lit(SI, 1000)), prim("si.add", _copy.deepcopy(E), var(u_)))
+            body = {"e": "seq", "t": SI, "es": [first, {"e": "asg", "x": u_, "v": _copy.deepcopy(E)}, tail]}
+            if k % 2 == 0:      # keep the function out of line: a self call that is never taken
+                self_call = {"e": "call", "fi": len(self.funs) + 1, "args": [prim("si.add", var(p_), lit(SI, 1)), var(q_), var(l_)]}
+                body = {"e": "if", "c": prim("si.lt", var(p_), lit(SI, -99999)), "a": self_call, "b": body, "t": SI}
+            f = {"name": name, "oname": name, "ps": [p_, q_, l_], "pts": [SI, SI, ["list", SI]], "rt": SI, "pure": True,
+                 "body": {"e": "let", "x": t_, "t": SI, "v": lit(SI, 0),
+                          "body": {"e": "let", "x": u_, "t": SI, "v": lit(SI, 0), "body": body}}}
+            self.funs.append(f)
+            self.items.append(("f", f))
+            fi = len(self.funs)
+            for (a, b_, items) in [(r.randint(5, 9), r.randint(-3, 2), [1, 2]), (r.randint(-3, 0), r.randint(3, 6), [4, 7, 9]),
+                                   (r.randint(0, 3), r.randint(0, 3), [])]:
+                self.items.append(("t", {"d": "stmt", "x": {"e": "print", "args": [
+                    {"e": "call", "fi": fi, "args": [lit(SI, a), lit(SI, b_), {"e": "list", "t": ["list", SI], "args": [lit(SI, v) for v in items]}]},
+                    {"e": "str", "s": "\n"}]}}))
+
     def throwers(self):
         """(emphasis on exceptions) functions that throw a different exception for each small argument value."""
         for _ in range(2):
@@ -1185,6 +1235,8 @@ class ProgGen(object):
             self.try_drivers()
         if "store" in self.emph and "fun" in self.feat:
             self.param_drivers()
+        if "cse" in self.emph:
+            self.redundancy_drivers()
         # make sure something is printed
         pr = [x for x, (t, a) in self.gscope.vars.items() if t in (SI, BI, STR)]
         args = []
